@@ -141,7 +141,16 @@ class Desync(Exception):
 class AB:
     """abstract bytes: a sequence of parts  ('id', i) 16 bytes | ('len', value) 4 bytes | ('body', i, lo, hi) bytes lo..hi of body i"""
     def __init__(self, parts=()):
-        self.parts = [p for p in parts if AB.plen(p) != 0]
+        out = []
+        for p in parts:
+            if AB.plen(p) == 0:
+                continue
+            q = out[-1] if out else None
+            if q is not None and len(p) == 4 and len(q) == 4 and p[0] == q[0] and p[1] == q[1] and q[3] == p[2]:
+                out[-1] = (p[0], p[1], q[2], p[3])        # consecutive pieces of the same field / body are that longer piece
+            else:
+                out.append(p)
+        self.parts = out
 
     @staticmethod
     def plen(p):
@@ -198,6 +207,33 @@ def _ab(o):
         if len(o) == 0:
             return AB()
     raise Desync("concrete bytes mixed into the abstract stream")
+
+
+class ABytearray:
+    """bytearray stand-in for code that collects chunks (buf = bytearray(); buf += chunk; bytes(buf)) over the abstract stream"""
+    def __init__(self, init=b""):
+        self.ab = _ab(init) if not isinstance(init, int) else AB()
+
+    def __iadd__(self, o):
+        self.ab = self.ab + o
+        return self
+
+    def extend(self, o):
+        self.ab = self.ab + o
+
+    def __len__(self):
+        return len(self.ab)
+
+    def __bool__(self):
+        return len(self.ab) > 0
+
+
+def abytes(x=b"", *a):
+    if isinstance(x, ABytearray):
+        return x.ab
+    if isinstance(x, AB):
+        return x
+    return bytes(x, *a)
 
 
 class ACodec:
@@ -410,7 +446,7 @@ def frames_abstract(l1: int, l2: int, l3: int, cut: int, r1: int, r2: int, r3: i
     _IDPARTS.clear()
     for i in range(n):
         _IDPARTS[IDS[i]] = i
-    patch(pickle=ACodec, struct=AStruct, uuid=AUuidNS)
+    patch(pickle=ACodec, struct=AStruct, uuid=AUuidNS, bytearray=ABytearray, bytes=abytes)
     try:
         w = AWriter()
         for i in range(n):
